@@ -13,7 +13,7 @@ LEVEL = "exploration"
 RULE = ("(a) Hypothesis: 1-3 root models from C01's sample generator (sibling-object booster) x comparator sets whose thresholds are "
         "drawn from the Jaccard ratios / shared-key counts actually present between the objects of the case (so many cases sit "
         "exactly on a threshold). The registry is snapshotted before merge_models; reference relation = own implementation of "
-        "exact / percent / number on the original key sets, closed by union-find. Oracle: replacement list == components of size "
+        "exact / percent / number (thresholds incl. 0) on the original key sets, closed by union-find; a second merge_models() call after more data is checked against the relation over the key sets held then. Oracle: replacement list == components of size "
         ">= 2; merged key set == union of members' key sets; singleton models are the same objects with unchanged field types "
         "modulo pointer retargeting; merged members unregistered, merged model registered; every pointer reachable from a "
         "registered model and every pointer in pointers/child_pointers targets a registered model, child_pointers complete; then "
